@@ -148,6 +148,7 @@ def sample_plans(seed, n=2):
             "objects": {k: (v.get("kind") + (" <- " + v["from"] + "." + v["op"] if "from" in v else " (root spec)")) for k, v in p["objects"].items()},
             "schedule": [
                 (f"s{s['s']}:{s['obj']}.{s['op']}({json.dumps(s.get('args'))[:60]})" + (f"->{s['store']}" if "store" in s else "")) if s["t"] == "call"
+                + (f" [cursor {s['lazy']['cur']} take {s['lazy']['take']}]" if "lazy" in s else "") + (f" [resume {s['resume']['cur']} take {s['resume']['take']}]" if "resume" in s else "")
                 else (f"FAULT flood({s['n']})" if s["t"] == "flood" else f"FAULT {s['t']}")
                 for s in p["steps"][:40]
             ],
@@ -181,6 +182,8 @@ def evidence(agg, tier, seed, wall, batches):
             "flood": st["flood"], "flood_that_evicted": st["flood_evicting"], "parent_cache_evictions": st["evictions_total"],
             "gc": st["gc"], "foreign_build(touch)": st["touch"],
             "objects_shared_by_>=2_sessions": st["shared_objects"],
+            "lazy_cursor_steps(an iterator answer opened, resumed or drained while other sessions ran in between)": st["lazy_steps"],
+            "of_which_resumes": st["lazy_resumes"],
         },
         "reach_probes": {
             "calls_on_warm_object(memo filled)": st["warm_calls"], "calls_on_cold_object": st["cold_calls"],
